@@ -16,13 +16,13 @@ namespace sim { void setProcessorCount(int n); uint64_t condOpsAfterDestroy(); u
 
 typedef Future<void>::Private FP;
 
-enum Code { O_START = 1, O_JOIN, O_CONVERT, O_ABORT, O_QUERY, O_SLEEP, O_RECREATE, O_WORK, O_N };
-static const char* codeName[] = {"?", "start", "join", "convert", "abort", "query", "sleep", "recreate", "work"};
+enum Code { O_START = 1, O_JOIN, O_CONVERT, O_ABORT, O_QUERY, O_SLEEP, O_RECREATE, O_WORK, O_ABORTOTHER, O_N };
+static const char* codeName[] = {"?", "start", "join", "convert", "abort", "query", "sleep", "recreate", "work", "abort(from another thread)"};
 static const char* opName(int c) { return (c > 0 && c < O_N) ? codeName[c] : "?"; }
 
 static const int MAXCALL = 128;
 struct CallInfo { int kind; int param; int exec; bool done; int client, fut; void* futObj; int futType; int argEchoBad; bool member; };
-struct Fut { void* obj; int type; int lastCall; bool abortReq; };   // type 0 void, 1 int, 2 String
+struct Fut { void* obj; int type; int lastCall; bool abortReq; int pins; bool recreating; unsigned crossCount, crossDone, crossAtStart; bool crossInflightAtStart; };   /* pins: other threads inside abort() on this object; cross*: abort() calls from other threads (begun / returned; values when the owner's latest start began) */   // type 0 void, 1 int, 2 String
 struct Ctx {
   const RunSpec* spec; int nclients; int phase;   // 0 clients, 1 teardown
   Fut fut[4][3]; CallInfo call[MAXCALL]; int ncalls;
@@ -69,7 +69,8 @@ static void checkAfterJoin(int c, int f, const char* how) {
   if (!done) fail("C10/join_returned_before_completion", "%s on client %d future %d returned before call %d completed", how, c, f, F.lastCall);
   bool ab, fin;
   switch (F.type) { case 0: ab = ((Future<void>*)F.obj)->isAborted(); fin = ((Future<void>*)F.obj)->isFinished(); break; case 1: ab = ((Future<int>*)F.obj)->isAborted(); fin = ((Future<int>*)F.obj)->isFinished(); break; default: ab = ((Future<String>*)F.obj)->isAborted(); fin = ((Future<String>*)F.obj)->isFinished(); break; }
-  if (ab && !F.abortReq) fail("C10/aborted_without_request", "isAborted() after %s although abort() was never requested since start (call %d)", how, F.lastCall);
+  bool crossPossible; { NoPreempt np; crossPossible = F.crossInflightAtStart || F.crossCount != F.crossAtStart; }   /* another thread was inside abort() when the latest start began, or called it since */
+  if (ab && !F.abortReq && !crossPossible) fail("C10/aborted_without_request", "isAborted() after %s although abort() was never requested since start (call %d)", how, F.lastCall);
   if (!ab && !fin) fail("C10/not_finished_after_join", "neither isFinished() nor isAborted() after %s (call %d)", how, F.lastCall);
 }
 
@@ -92,6 +93,7 @@ static void client(void* a) {
       if (id < 0) break;
       { NoPreempt np; if (!FP::_threadPool && FP::_threadPoolLock) C.lockWaiters++; }
       int prev = F.lastCall;
+      { NoPreempt np; F.crossAtStart = F.crossCount; F.crossInflightAtStart = F.crossCount != F.crossDone; }
       char an[32]; snprintf(an, sizeof an, "c%d", id); String arg(an, strlen(an));
       bool member = (op.a[3] % 3) == 0;
       switch (F.type) {
@@ -111,8 +113,16 @@ static void client(void* a) {
     case O_ABORT: switch (F.type) { case 0: ((Future<void>*)F.obj)->abort(); break; case 1: ((Future<int>*)F.obj)->abort(); break; default: ((Future<String>*)F.obj)->abort(); break; } if (F.lastCall >= 0) { F.abortReq = true; probe("abort_requested"); } break;
     case O_QUERY: switch (F.type) { case 0: (void)((Future<void>*)F.obj)->isFinished(); break; case 1: (void)((Future<int>*)F.obj)->isAborting(); break; default: (void)((Future<String>*)F.obj)->isAborted(); break; } break;
     case O_SLEEP: { static const int ms[] = {0, 1, 20, 900, 2500, 5000}; Thread::sleep(ms[op.a[1] % 6]); break; }
-    case O_RECREATE: deleteFuture(F); { if (F.lastCall >= 0) { bool done; { Host h; done = C.call[F.lastCall].done; } if (!done) fail("C10/destructor_returned_before_completion", "~Future returned before call %d completed", F.lastCall); } } newFuture(F); break;
+    case O_RECREATE: { bool busy; { NoPreempt np; busy = F.pins > 0; if (!busy) F.recreating = true; } if (busy) { probe("recreate_skipped_object_in_use_by_aborter"); break; } }
+      deleteFuture(F); { if (F.lastCall >= 0) { bool done; { Host h; done = C.call[F.lastCall].done; } if (!done) fail("C10/destructor_returned_before_completion", "~Future returned before call %d completed", F.lastCall); } } newFuture(F); { NoPreempt np; F.recreating = false; } break;
     case O_WORK: for (volatile int i = 0; i < (int)(op.a[1] % 20); ++i) yieldMem(); break;
+    case O_ABORTOTHER: { /* the controlling thread of an application cancels work that another thread started: abort() on a future this client does not own */
+      if (C.nclients < 2) break; int t = (c + 1 + (int)(op.a[1] % (C.nclients - 1))) % C.nclients; Fut& G = C.fut[t][f]; void* obj = 0; int type = 0;
+      { NoPreempt np; if (!G.recreating && G.obj) { obj = G.obj; type = G.type; G.pins++; G.crossCount++; } }
+      if (!obj) break;
+      switch (type) { case 0: ((Future<void>*)obj)->abort(); break; case 1: ((Future<int>*)obj)->abort(); break; default: ((Future<String>*)obj)->abort(); break; }
+      { NoPreempt np; G.crossDone++; G.pins--; }
+      probe("abort_from_another_thread"); break; }
     }
   }
   setTaskNote("");
@@ -171,6 +181,8 @@ static void generate(RunSpec& s, int tier) {
   bool firstStartRace = !churn && r(6) == 0;      /* three or four clients whose first action is the process's first start(): they race through the lazy pool creation */
   if (firstStartRace) nc = 3 + (int)r(2);
   if (churn) nc = 3 + (int)r(2);
+  bool abortStorm = !churn && !firstStartRace && r(8) == 0;   /* one thread starts and joins calls on a future in a loop while another keeps calling abort() on that future */
+  if (abortStorm) nc = 2;
   s.knobs["clients"] = nc; s.knobs["pool_mode"] = (r(4) && !firstStartRace) ? 1 : 0; s.knobs["pool_min"] = r(3); s.knobs["pool_max"] = 3 + r(3); static const int qs[] = {1, 2, 4, 8}; s.knobs["pool_queue"] = qs[r(4)]; s.knobs["nproc"] = 1 + r(8);
   static const int memk[] = {3, 5, 7, 9, 255}; static const int synck[] = {0, 1, 2, 4};
   s.knobs["mem_switch_log2"] = memk[r(5)]; s.knobs["sync_switch_log2"] = synck[r(4)];
@@ -179,15 +191,16 @@ static void generate(RunSpec& s, int tier) {
   if (churn && r(2)) { s.knobs["freeze_pct"] = 60; s.knobs["sync_switch_log2"] = 1 + r(2); s.knobs["mem_switch_log2"] = 255; }   /* half of the churn plans: pre-emption at calls only, pre-empted clients stay away long (several clients parked inside run() at once) */
   bool sleepy = r(3) == 0;
   for (int c = 0; c < nc; ++c) {
-    int n = 2 + (int)r(7); if (churn) n = 7 + (int)r(5);
+    int n = 2 + (int)r(7); if (churn) n = 7 + (int)r(5); if (abortStorm) n = 8 + (int)r(6);
     for (int i = 0; i < n; ++i) {
       Op o; o.task = c; o.a[0] = (int64_t)r(3); o.a[1] = (int64_t)r(1000); o.a[2] = (int64_t)r(1000); o.a[3] = (int64_t)r(1000);
       uint64_t k = r(100);
-      o.code = k < 40 ? O_START : k < 58 ? O_JOIN : k < 68 ? O_CONVERT : k < 76 ? O_ABORT : k < 80 ? O_QUERY : k < (sleepy ? 94u : 84u) ? O_SLEEP : k < 97 ? O_RECREATE : O_WORK;
+      o.code = k < 40 ? O_START : k < 58 ? O_JOIN : k < 68 ? O_CONVERT : k < (nc > 1 ? 72u : 76u) ? O_ABORT : k < 76 ? O_ABORTOTHER : k < 80 ? O_QUERY : k < (sleepy ? 94u : 84u) ? O_SLEEP : k < 97 ? O_RECREATE : O_WORK;
       if (o.code == O_SLEEP && sleepy) o.a[1] = 3 + r(3);
       if (firstStartRace && i == 0) o.code = O_START;
       if (churn) { /* synchronised bursts: every client runs start,start,(start),sleep 2.5 s,... so that the bursts of all clients coincide after each idle period */
         int ph = i % 4; if (ph < 3) { o.code = (ph == 2 && r(3) == 0) ? O_JOIN : O_START; o.a[0] = ph; if (r(2)) o.a[1] = 2 + 4 * (int64_t)r(100); } else { o.code = O_SLEEP; o.a[1] = 4; } }
+      if (abortStorm) { o.a[0] = 0; if (c == 0) { o.code = (i % 2) ? O_JOIN : O_START; if (r(4) == 0) o.code = O_START; } else { o.code = r(4) ? O_ABORTOTHER : O_WORK; o.a[1] = 0; } }
       s.plan.push_back(o);
     }
   }
